@@ -830,6 +830,10 @@ impl World {
     pub fn collect_protocol_pub(&mut self) -> Result<String, String> {
         self.collect_protocol()
     }
+    /// manager-level update_fees_and_rewards (what the instruction of that name does)
+    pub fn update_fees_pub(&mut self, id: u32) -> Result<String, String> {
+        self.update_fees(id)
+    }
 }
 
 #[derive(Default)]
@@ -1012,7 +1016,46 @@ impl Hist {
                 format!("H xliq {} {} {} {} {} {} {} {}", ver, id, b(inc), liq, r.pick(&[0u8, 0, 1, 2]), fa, fb, auth)
             }
             45 => if r.chance(1, 4) { format!("H xsub grid 0 {} 0", id) } else { format!("H xsub {} {} {} {}", if r.chance(1, 2) { "swap" } else if r.chance(1, 2) { "liq" } else { "dec" }, r.below(15), id, if r.chance(1, 2) { 0 } else { 1 + r.below(5) }) },
-            46..=49 => format!("H upd {}", id),
+            46 => {
+                // position instructions of the Anchor path through the entrypoint (read-only on the history)
+                let kind = r.pick(&["upd", "cf", "cf", "close", "reset", "reset"]);
+                // close / reset need an empty position to succeed: prefer one when there is one
+                let empties: Vec<u32> = ids.iter().copied().filter(|i| w.pos(*i).map(|q| Position::is_position_empty(&q)).unwrap_or(false)).collect();
+                let (id, p) = if (kind == "close" || kind == "reset") && !empties.is_empty() && r.chance(2, 3) {
+                    let i = r.pick(&empties);
+                    (i, w.pos(i).unwrap())
+                } else {
+                    (id, p)
+                };
+                let ver = if r.chance(1, 2) { 1 } else { 2 };
+                let fee = |r: &mut Rng| -> String {
+                    if r.chance(1, 2) {
+                        return "65535 0 0".to_string();
+                    }
+                    format!("{} {} {}", r.pick(&[0u64, 1, 100, 300, 5000, 9999, 10000]), r.pick(&[0u64, 1, 5000, 1_000_000, u64::MAX]), b(r.chance(1, 2)))
+                };
+                let (fa, fb) = (fee(r), fee(r));
+                let auth = r.pick(&[0u8, 0, 0, 0, 1, 2, 3, 4]);
+                let ts = wp.tick_spacing;
+                let (a1, a2) = if kind == "reset" {
+                    match r.below(6) {
+                        0 => (p.tick_lower_index as i64, p.tick_upper_index as i64),
+                        1 => (usable(r, ts, -443636, 443636) as i64 + 1, usable(r, ts, -443636, 443636) as i64),
+                        2 => {
+                            let x = usable(r, ts, -443636, 443636) as i64;
+                            (x, x)
+                        }
+                        _ => {
+                            let (x, y) = (usable(r, ts, -443636, 443636) as i64, usable(r, ts, -443636, 443636) as i64);
+                            (x.min(y), x.max(y))
+                        }
+                    }
+                } else {
+                    (0, 0)
+                };
+                format!("H xpos {} {} {} {} {} {} {} {}", kind, ver, id, auth, a1, a2, fa, fb)
+            }
+            47..=49 => format!("H upd {}", id),
             50..=54 => format!("H cfees {}", id),
             55..=57 => "H cproto".to_string(),
             58..=59 if wp.liquidity > 0 && (w.snap.is_none() || r.chance(1, 4)) => "H snap".to_string(),
@@ -1280,6 +1323,22 @@ impl Family for Hist {
                         ctx.tag(tg);
                     }
                     ctx.tag("xhop");
+                    o.line + " | " + &w.digest()
+                }
+                Err(_) => "err HarnessPanic | ".to_string() + &w.digest(),
+            };
+        }
+        if t[1] == "xpos" {
+            let o = std::panic::catch_unwind(std::panic::AssertUnwindSafe(|| w.x_pos(&t)));
+            return match o {
+                Ok(o) => {
+                    for v in o.viols {
+                        ctx.viol(v);
+                    }
+                    for tg in o.tags {
+                        ctx.tag(tg);
+                    }
+                    ctx.tag("xpos");
                     o.line + " | " + &w.digest()
                 }
                 Err(_) => "err HarnessPanic | ".to_string() + &w.digest(),
